@@ -44,6 +44,11 @@ func makeRejected(c *Chooser, p *Plan, class string) bool {
 			return false
 		}
 		rc.Codec = Pick(c, "xml", "protobuf", "JSON", "text")
+		if rc.Form == FormREST {
+			// a REST request names its codec only through the content type, and JSON is the only one there is
+			rc.Codec = Pick(c, "xml", "protobuf", "text")
+			rc.ContentType = "application/" + rc.Codec
+		}
 		for i := range rc.Msgs {
 			rc.Msgs[i].RawPayload = []byte("<x/>")
 		}
@@ -56,6 +61,9 @@ func makeRejected(c *Chooser, p *Plan, class string) bool {
 		switch rc.Form {
 		case FormGRPC, FormGRPCWeb:
 			rc.Timeout = Pick(c, "1x", "S", "-1S", "1.5S", "123456789S", "1 S", "١S")
+		case FormREST:
+			// X-Server-Timeout: a non-negative decimal number of seconds
+			rc.Timeout = Pick(c, "abc", "-1", "5 5", "ten", "1..5", "nan", "-0.5", "1s")
 		default:
 			rc.Timeout = Pick(c, "abc", "-1", "1.5", "1e3", "5 5", "0x10", "ten")
 		}
@@ -266,6 +274,9 @@ func stillRejected(p *Plan, class string) bool {
 		hdr := "Connect-Timeout-Ms"
 		if rc.Form == FormGRPC || rc.Form == FormGRPCWeb {
 			hdr = "Grpc-Timeout"
+		}
+		if rc.Form == FormREST {
+			hdr = "X-Server-Timeout"
 		}
 		_, ok := refTimeoutNanos(hdr, rc.Timeout)
 		return rc.Timeout != "" && !ok
